@@ -188,6 +188,71 @@ def run_c09(lo, hi):
     return out
 
 
+METHOD_NAMES = ['count', 'index', 'join', 'keys', 'format']
+
+
+def run_method_names():
+    """a function that is called like a method of its first argument (count, index, join, keys, format): `_keygen` takes
+    `getattr(args[0], func.__name__)` for a sign that args[0] is `self`"""
+    import klepto
+    import klepto.safe
+    from klepto._inspect import _keygen
+    out = {'evaluations': 0, 'distinct': 0, 'violations': [], 'samples': [], 'counters': {'method_like_names': len(METHOD_NAMES)}}
+    seen = set()
+
+    def viol(clause, klass, msg, wit):
+        if (clause, klass) in seen:
+            return
+        seen.add((clause, klass))
+        out['violations'].append({'clause': clause, 'klass': klass, 'message': msg, 'witness': wit})
+    firsts = ['s', (1, 2), [3], {'k': 1}, 5]
+    for name in METHOD_NAMES:
+        for form, params, ret in (('%s(*args)', '*args', 'args'), ('%s(*args, **kw)', '*args, **kw', '(args, sorted(kw.items()))'), ('%s(first, *rest)', 'first, *rest', '(first, rest)')):
+            ns = {}
+            exec('def %s(%s):\n    return %s\n' % (name, params, ret), ns)
+            fn = ns[name]
+            wit = {'methodname': name, 'form': form % name, 'check': 'c09'}
+            for first in firsts:
+                a = (first, 1)
+                out['evaluations'] += 1
+                out['distinct'] += 1
+                try:
+                    _keygen(fn, (), *a)
+                except Exception as e:      # noqa
+                    viol('keygen_total', 'a function named like a method of its first argument: key generation raises',
+                         'def %s: _keygen raised %r for the call %r' % (form % name, e, a), wit)
+                for (dn, dec) in (('klepto.inf_cache', klepto.inf_cache), ('klepto.safe.inf_cache', klepto.safe.inf_cache)):
+                    try:
+                        hash(first)
+                    except TypeError:
+                        continue            # unhashable arguments are C16's subject
+                    f = dec(keymap=klepto.keymaps.keymap())(fn)
+                    try:
+                        got = f(*a)
+                        f(*a)
+                        info = f.info()
+                    except Exception as e:      # noqa
+                        viol('decorated_call_is_transparent_and_cached', 'a function named like a method of its first argument: the decorated call raises',
+                             'def %s through %s: call %r raised %r' % (form % name, dn, a, e), wit)
+                        continue
+                    if got != fn(*a) or info.hit != 1:
+                        viol('decorated_call_is_transparent_and_cached', 'a function named like a method of its first argument',
+                             'def %s through %s: call %r returned %r (function: %r), second call: %r' % (form % name, dn, a, got, fn(*a), tuple(info)), wit)
+            if form.startswith('%s(first'):
+                # ignoring the first parameter: the calls differ only there, so they share a key -- whatever attributes the value has
+                try:
+                    keys = set(repr(_keygen(fn, ('first',), x, 1)) for x in firsts)
+                except Exception as e:      # noqa
+                    keys = {'raises %r' % (e,)}
+                out['evaluations'] += 1
+                if len(keys) != 1:
+                    wit11 = dict(wit, check='c11')
+                    viol('ignored_never_influence', 'a function named like a method of its first argument',
+                         'def %s with ignore=first: calls differing only in the ignored argument get the keys %s' % (form % name, sorted(keys)), wit11)
+    out['samples'].append({'function_names': METHOD_NAMES, 'first_arguments': [repr(x) for x in firsts]})
+    return out
+
+
 def run_c19(lo, hi):
     from klepto._inspect import isvalid, validate
     out = {'evaluations': 0, 'distinct': 0, 'violations': [], 'samples': [], 'counters': {'reserved_names': 0}}
@@ -244,6 +309,10 @@ def run_c19(lo, hi):
 
 
 def replay(w):
+    if 'methodname' in w:
+        r = run_method_names()
+        vs = [v for v in r['violations'] if v['witness'].get('methodname') == w['methodname'] and v['witness'].get('form') == w['form']]
+        return bool(vs), (vs[0]['message'][:500] if vs else 'calls of %s behave' % w['form'])
     lo = names().index(w['reserved']) if w['reserved'] in names() else None
     if lo is None:
         return False, 'the name %r is no longer a parameter name of klepto' % w['reserved']
